@@ -875,6 +875,8 @@ def build(include=None, stubset=(), spec_paths=None, shim_paths=None, out_path=N
     for p in (spec_paths or []):
         parse_vspec(p, specs)
     ctx = Ctx(specs)
+    ctx_theorems = []
+    ctx.theorems = ctx_theorems
     ctx.files = []; ctx.excluded = []
     ctx.stub_fns = set(stub_fns); ctx.drop_uses = set(drop_uses)
     ctx.used_companions = set(); ctx.used_implitems = set()
@@ -882,7 +884,17 @@ def build(include=None, stubset=(), spec_paths=None, shim_paths=None, out_path=N
     out.add("#![feature(allocator_api)]\n#![feature(sized_hierarchy)]\n#![allow(unused)]\n#![allow(unused_imports, dead_code, non_camel_case_types, unused_parens, unused_braces)]\nuse vstd::prelude::*;\n")
     for p in (shim_paths or []):
         out.add("// ==== shim %s\n" % os.path.basename(p))
-        out.add(open(p).read() + "\n", {"file": "shim:" + os.path.basename(p), "part": "shim"})
+        txt = open(p).read() + "\n"
+        # proof functions introduced by `// OBL: <label>` are named obligations (theorems over the spec functions)
+        pieces = re.split(r"(?m)^(?=// OBL: )", txt)
+        for pc in pieces:
+            m = re.match(r"// OBL: (\S+)", pc)
+            if m:
+                fm = re.search(r"proof fn (\w+)", pc)
+                ctx_theorems.append({"label": m.group(1), "fn": fm.group(1) if fm else "?", "file": os.path.basename(p), "text": " ".join(pc.split())[:500]})
+                out.add(pc, {"file": "specs:" + os.path.basename(p), "part": "theorem", "label": m.group(1)})
+            else:
+                out.add(pc, {"file": "shim:" + os.path.basename(p), "part": "shim"})
     for t in specs.prelude:
         out.add(t + "\n")
     inc = include or (lambda rel: True)
